@@ -7,6 +7,7 @@ import (
 	"errors"
 	"fmt"
 	"io"
+	"log"
 	"log/slog"
 	"regexp"
 	"runtime"
@@ -65,6 +66,11 @@ type pipeCase struct {
 	EmptyRunAt int `json:"empty_run_at_offset,omitempty"`
 	// the last source ends with a hard read error instead of end-of-file
 	EndsWithError bool `json:"ends_with_a_read_error,omitempty"`
+	// the pause after a first end-of-file (wait_time_on_EOF_millis; 0 = 1 ms).  It may
+	// be longer than the tolerance: a single interruption is still resumed from
+	WaitMs uint `json:"wait_ms,omitempty"`
+	// the configuration carries a system log (what is logged changes nothing)
+	WithLog bool `json:"system_log,omitempty"`
 }
 
 // chunkReader hands out the input in chunks with pauses, then reports io.EOF.
@@ -259,6 +265,12 @@ func execC09(c *child.Ctx, k pipeCase, cj []byte, traces, pairs map[uint64]struc
 	cfg := &jsonconfig.Config{} // zero tolerance: stop at the first end of file
 	if k.TolMs > 0 {
 		cfg = &jsonconfig.Config{WaitTimeOnEOFMilliseconds: 1, TimeoutOnEOFMilliSeconds: k.TolMs}
+		if k.WaitMs > 0 {
+			cfg.WaitTimeOnEOFMilliseconds = k.WaitMs
+		}
+	}
+	if k.WithLog {
+		cfg.SystemLog = log.New(io.Discard, "c09 ", log.LstdFlags)
 	}
 	core := appcore.New(cfg, channels)
 
@@ -492,6 +504,15 @@ func monC09(c *child.Ctx, replay json.RawMessage) {
 					k.PauseMs = append(k.PauseMs, 0)
 				}
 			}
+		}
+		if k.TolMs > 0 && len(k.EOFAt) > 0 && (i/8)%3 == 1 {
+			// a pause after the first end-of-file that is longer than the tolerance
+			k.WaitMs = k.TolMs + uint(r.Range(5, 45))
+			c.Count("runs_with_a_pause_longer_than_the_tolerance", 1)
+		}
+		if i%4 == 1 {
+			k.WithLog = true
+			c.Count("runs_with_a_system_log", 1)
 		}
 		if i%5 == 2 {
 			k.EmptyPermille = []int{20, 200, 500}[r.Intn(3)]
